@@ -637,6 +637,10 @@ func TestVerifC11Msg(t *testing.T) {
 	h1 := []string{"xap:A", "xap:A"}                          // one committed exact row + uncommitted suffix
 	h2 := []string{"fol:A", "fol:A", "trm:A", "xap:B", "xap:B"} // plain rows, history, retention; second channel: committed exact row + uncommitted suffix
 	h3 := []string{"xap:A", "xap:A", "fol:B", "trm:B"}          // the loosely validated fields (cut epoch, cursor, retention) of the second channel lie deep in the stream
+	// re-sealed row <-> entry identity mismatch (round 4): the mismatched row is the only row / lies in the second channel behind an intact one
+	h1pop := []string{"xap:B", "xap:B"}
+	h4 := []string{"fol:A", "fol:A", "xap:B", "xap:B", "xap:B"}
+	h4pop := []string{"fol:A", "fol:A"}
 	if rf := r.Replay(); rf != nil {
 		// enumeration / crash sections are cheap: re-run the whole section of the recorded violation
 		before := r.ViolationCount()
@@ -651,6 +655,10 @@ func TestVerifC11Msg(t *testing.T) {
 			vc11Corruption(r, "exact", h1, true, vc11Importers, map[string]bool{"bytes": true})
 		case "message-resealed-mismatch/two-channels":
 			vc11Corruption(r, "two-channels", h2, true, vc11Importers, map[string]bool{"bytes": true})
+		case "message-resealed-row-identity-mismatch/exact":
+			vc11RowMismatch(r, "exact", h1, h1pop, vc11Importers)
+		case "message-resealed-row-identity-mismatch/second-channel":
+			vc11RowMismatch(r, "second-channel", h4, h4pop, vc11Importers)
 		case "message-restore-crash-retry/two-channels":
 			vc11CrashRetry(r, "two-channels", h2)
 		case "message-restore-crash-retry/exact":
@@ -669,6 +677,8 @@ func TestVerifC11Msg(t *testing.T) {
 	if r.Thorough() {
 		vc11Corruption(r, "two-channels", h2, true, vc11Importers, map[string]bool{"bytes": true})
 	}
+	vc11RowMismatch(r, "exact", h1, h1pop, vc11Importers)
+	vc11RowMismatch(r, "second-channel", h4, h4pop, vc11Importers)
 	vc11CrashRetry(r, "two-channels", h2)
 	if r.Thorough() {
 		vc11CrashRetry(r, "exact", []string{"xap:A", "xap:A", "xap:A", "hw:A"})
